@@ -186,6 +186,16 @@ def _cfg_submit_now():
     cfg.contracts["more_executors._impl.retry.RetryExecutor._pop_job"] = RecordCall()
     cfg.contracts["more_executors._impl.retry.RetryExecutor._append_job"] = RecordCall()
     cfg.contracts["more_executors._impl.retry.RetryExecutor._delegate_callback"] = RecordCall()
+
+    def on_stop_write(engine, st, fr, o, v):
+        # ghost: at the very moment the new job's flag is written - what does the future's own cancel-request mark say, have the delegate
+        # been asked already (a synchronous delegate runs the callable, which may call cancel(), inside submit()), and which locks are held
+        fid_ = getattr(cfg, "handover_future", None)
+        if fid_ is not None:
+            n_sub = len([e for e in st.trace if e.kind == "call" and e.meth == "submit"])
+            st.ghost["handover_stop"] = st.ghost.get("handover_stop", []) + [
+                (o.t, engine.to_val(st, v), st.get("_stop_retry", fid_), n_sub, any(h[3] == "_me_lock" for h in st.held))]
+    cfg.ghost_hooks[("write", "stop_retry")] = on_stop_write
     return cfg
 
 
@@ -200,6 +210,8 @@ def _setup_submit_now(engine, st):
     st.assume(Val.is_intv(st.get("attempt", jid)))
     st.assume(idle(st, job.t))
     engine.cfg.inflight = []
+    engine.cfg.handover_future = fid
+    st.assume(Val.is_boolv(st.get("_stop_retry", fid)))
     ctx = {"ex": ex, "sid": Val.id(ex.t), "job": job, "jid": jid, "fid": fid, "fut": fut,
            "fn": st.get("fn", jid), "args": st.get("args", jid), "kwargs": st.get("kwargs", jid), "policy": st.get("policy", jid),
            "attempt": Val.i(st.get("attempt", jid))}
@@ -248,8 +260,12 @@ def _post_submit_now(engine, st, ctx, out):
         cl.append(("the in-flight job: attempt counter + 1, the delegate's future, no due time, same future / callable / arguments / policy", "PC",
                    z3.And(Val.i(st.get("attempt", nj)) == ctx["attempt"] + 1, st.get(JDF, nj) == ev.ret, Val.is_none(st.get("when", nj)),
                           st.get("future", nj) == ctx["fut"].t, st.get("fn", nj) == ctx["fn"], st.get("args", nj) == ctx["args"],
-                          st.get("kwargs", nj) == ctx["kwargs"], st.get("policy", nj) == ctx["policy"],
-                          z3.Not(Val.b(st.get("stop_retry", nj)))), ["C05", "C01"]))
+                          st.get("kwargs", nj) == ctx["kwargs"], st.get("policy", nj) == ctx["policy"]), ["C05", "C01"]))
+        hs = [w for w in st.ghost.get("handover_stop", []) if z3.is_true(z3.simplify(Val.id(w[0]) == nj))]
+        cl.append(("C06: the in-flight job inherits a cancel request made during the hand-over (the callable of a synchronous delegate calling cancel() on its "
+                   "own future finds no job and marks the future): its stop_retry is the future's mark, read AFTER the delegate accepted the callable, under "
+                   "the future's lock - so that retrying ends although that cancel() answered False", "PC",
+                   z3.And(z3.BoolVal(hs[-1][3] == 1 and hs[-1][4]), hs[-1][1] == hs[-1][2]) if hs else z3.BoolVal(False), ["C06", "C05"]))      # hs[-1]: the last write (the constructor's `False` comes first)
         cl.append(("the new job is queued in the same critical section in which the old one was removed", "PC",
                    z3.BoolVal(any(h[3] == "_lock" for h in apps[0][1].held) and apps[0][0] > i_sub), ["C05", "C06"]))
     cl.append(("our done-callback is registered on the delegate's future, after the locks are released", "PC",
@@ -308,8 +324,16 @@ def _post_cancel(engine, st, ctx, out):
         return cl
     r = engine.truth(st, out)
     r = z3.BoolVal(r) if isinstance(r, bool) else r
+    # C06, from the property statement: ANY cancel() call, successful or not, ends retrying.  On every path: the job is gone (removed here), or
+    # the job found carries stop_retry = True, or - no job to be found, the future is being handed over - the request is recorded on the future
+    # itself, where the hand-over picks it up (unit RetryExecutor._submit_now, clause `... inherits a cancel request made during the hand-over`).
+    fw = [e for e in st.trace if e.kind == "write" and e.meth == "_stop_retry" and z3.is_true(z3.simplify(e.recv == fid))]
+    cl.append(("any cancel() request, successful or not, is recorded so that retrying ends: the job is removed, or marked stop_retry, or - no job right now - "
+               "the future itself is marked", "PC",
+               z3.BoolVal(bool(pops) or any(z3.is_true(z3.simplify(e.args[0] == Val.boolv(z3.BoolVal(True)))) for _i, e in sw)
+                          or any(z3.is_true(z3.simplify(e.args[0] == Val.boolv(z3.BoolVal(True)))) for e in fw)), ["C06", "C05"]))
     if not pops and not dcalls:
-        cl.append(("no job for this future right now (being handed over / being resolved): cancel answers False and touches nothing", "PC",
+        cl.append(("no job for this future right now (being handed over / being resolved): cancel answers False and removes or asks nothing", "PC",
                    z3.And(z3.Not(r), z3.BoolVal(not pops and not dcalls and not sw)), ["C06", "C02", "C18"]))
         return cl
     if pops:
@@ -511,6 +535,10 @@ def _post_loop(engine, st, ctx, out):
 UNITS.append(Unit("_submit_loop", "retry._submit_loop", ["C05", "C03", "C06", "C11", "C12", "C18", "C02", "C04"], _setup_loop, _post_loop, cfg=_cfg_loop))
 
 REPLAYS = [("C12", "RetryExecutor._cancel # a successfully cancelled in-flight attempt", "replay/c12_retry_cancelled_future_pins_executor.py"),
+           ("C06", "RetryExecutor._cancel # any cancel() request, successful or not", "replay/c06_cancel_inside_callable_sync.py"),
+           ("C05", "RetryExecutor._cancel # any cancel() request, successful or not", "replay/c06_cancel_inside_callable_sync.py"),
+           ("C06", "RetryExecutor._submit_now # C06: the in-flight job inherits", "replay/c06_cancel_inside_callable_sync.py"),
+           ("C05", "RetryExecutor._submit_now # C06: the in-flight job inherits", "replay/c06_cancel_inside_callable_sync.py"),
            ("C02", "RetryExecutor._cancel", "replay/c02_retry_cancel_orphan.py"), ("C18", "RetryExecutor._cancel", "replay/c02_retry_cancel_orphan.py"),
            ("C06", "RetryExecutor._cancel", "replay/c02_retry_cancel_orphan.py"),
            ("C20", "RetryExecutor._cancel", "replay/c20_retry_queue_cancel.py"), ("C12", "RetryExecutor._cancel", "replay/c20_retry_queue_cancel.py"),
